@@ -115,6 +115,40 @@ fn sequences(ctx: &mut Ctx, max_len: usize) {
     }
 }
 
+/// long texts: chains of 600 and 3000 operators at every binary level, 600-700 levels of every kind of nesting — the grammar derives
+/// them whatever their length, and the tree is still the table's
+fn long_texts(ctx: &mut Ctx) {
+    let mut texts: Vec<(String, usize)> = vec![];
+    for op in ["+", "-", "*", "/", "%", "&", "|", "^", "and", "or", "==", "!=", "<", ">=", "="] {
+        for n in [520usize, 3_000] {
+            texts.push((format!("a{}", format!(" {op} a").repeat(n)), 2 * n + 1));
+        }
+    }
+    for n in [300usize, 520, 700] {
+        texts.push((format!("{}a", "-".repeat(n)), n + 1));
+        texts.push((format!("{}a", "!".repeat(n)), n + 1));
+        texts.push((format!("{}a{}", "(".repeat(n), ")".repeat(n)), 2 * n + 1));
+        texts.push((format!("{}a{}", "[".repeat(n), "]".repeat(n)), 2 * n + 1));
+        texts.push((format!("{}a{}", "{k: ".repeat(n), "}".repeat(n)), 4 * n + 1));
+        texts.push((format!("a{}", ".b.0".repeat(n)), 4 * n + 1));
+        texts.push((format!("{}a{}", "f(".repeat(n), ")".repeat(n)), 3 * n + 1));
+        texts.push((format!("{}a{}", "int(".repeat(n), ")".repeat(n)), 3 * n + 1));
+        texts.push((format!("{}a", "if a then a else ".repeat(n)), 5 * n + 1));
+        texts.push((format!("{}a{}", "if ".repeat(n), " then a else a".repeat(n)), 5 * n + 1));
+        texts.push((format!("{}a{}", "a + (".repeat(n), ")".repeat(n)), 4 * n + 1));
+        texts.push((format!("{}a{}", "(a contains ".repeat(n), ")".repeat(n)), 4 * n + 1));
+        texts.push((format!("[{}a]", "a, ".repeat(n * 20)), 40 * n + 3));
+        texts.push((format!("{{{}z: a}}", (0..n * 5).map(|i| format!("k{i}: a, ")).collect::<String>()), 20 * n + 5));
+    }
+    ctx.align();
+    for (t, ntok) in texts {
+        if !ctx.mine() {
+            continue;
+        }
+        judge_text(ctx, &t, "long-texts", ntok.min(9));
+    }
+}
+
 /// longer sequences that the bounded enumeration cannot reach: chained contains/in, nested if, …
 fn directed(ctx: &mut Ctx) {
     let texts = [
@@ -329,6 +363,7 @@ fn random_tree(rng: &mut Rng, sh: &[(&'static str, usize)], depth: usize) -> Exp
 
 fn run(ctx: &mut Ctx) {
     directed(ctx);
+    long_texts(ctx);
     trees(ctx);
     sequences(ctx, ctx.tier.of(4, 5));
 }
